@@ -136,6 +136,31 @@ def attr_lossless(v: str):
     return True
 
 
+def wrapped_lossless(v: str, pos: int):
+    """Line wrapping never changes content: in an attribute list long enough to be wrapped, with the value v at
+    position pos among long constant values, the serialisation is exactly the names and the individually quoted
+    values (the AttValue that attr_lossless proves lossless for v alone) joined by white space."""
+    single = xmlwriter.build_xml_tag('t', [('k', v)], None)
+    if not (single.startswith('<t k=') and single.endswith('/>')):
+        return 'frame broken: %r' % (single,)
+    q = single[5:len(single) - 2]
+    fill = [('alpha', 'x' * 36), ('beta', 'y y'), ('gamma', "z'" * 15)]
+    attrs = fill[:pos] + [('k', v)] + fill[pos:]
+    out = xmlwriter.build_xml_tag('tag', attrs, None, self_indent=4)
+    pad = chr(10) + ' ' * (4 + 3 + 1)
+    parts = []
+    for k, val in attrs:
+        if k == 'k':
+            parts.append(' k=' + q)
+        else:
+            one = xmlwriter.build_xml_tag('t', [(k, val)], None)
+            parts.append(one[2:len(one) - 2])
+    wrapped = '<tag' + pad.join(parts) + '/>'
+    if out != wrapped:
+        return 'wrapped serialisation %r is not the quoted values joined by white space %r' % (out, wrapped)
+    return True
+
+
 # ---------------------------------------------------------------------------
 # (b) structure with escaping abstracted
 
@@ -298,9 +323,45 @@ def _freeze(lst):
 
 
 def element_stack(o0: int, o1: int, o2: int, o3: int, o4: int, o5: int, n: int):
+    return _stack_check([o0, o1, o2, o3, o4, o5][:n], xmlwriter.XMLWriter())
+
+
+def two_writers(o0: int, o1: int, o2: int, o3: int, n: int, when: int):
+    """A second writer has an element open (when=0: opened before, closed after the first writer's
+    operations; 1: opened before, closed in the middle of them is not expressible with contexts, so:
+    opened and closed before; 2: created before, used after).  Each document is that of its own writer."""
     import xml.etree.ElementTree as ET
-    ops = [o0, o1, o2, o3, o4, o5][:n]
-    w = xmlwriter.XMLWriter()
+    w2 = xmlwriter.XMLWriter()
+    if when == 0:
+        w2.push_tag('other', [('k', 'v')])
+        w2.write_tag('leaf2', [])
+    elif when == 1:
+        w2.push_tag('other', [('k', 'v')])
+        w2.write_tag('leaf2', [])
+        w2.pop_tag()
+    r = _stack_check([o0, o1, o2, o3][:n], xmlwriter.XMLWriter())
+    if r is not True:
+        return r
+    if when == 0:
+        w2.pop_tag()
+    elif when == 2:
+        w2.push_tag('other', [('k', 'v')])
+        w2.write_tag('leaf2', [])
+        w2.pop_tag()
+    if w2._tag_stack or w2._indent != 0:
+        return 'second writer: stack/indent not restored: %r %r' % (w2._tag_stack, w2._indent)
+    xml = w2.get_xml()
+    try:
+        root = ET.fromstring(xml.encode('utf-8'))
+    except ET.ParseError as e:
+        return 'second writer: not well-formed (%s): %r' % (e, xml)
+    if _tree_shape(root) != ('other', (('k', 'v'),), '', (('leaf2', (), '', ()),)):
+        return 'second writer: structure differs: %r' % (_tree_shape(root),)
+    return True
+
+
+def _stack_check(ops, w):
+    import xml.etree.ElementTree as ET
     raised = False
     try:
         with w.tagcontext('root', []):
